@@ -461,9 +461,23 @@ class C06(Prop):
             ["via", 0, ["pop", "item", [], "y", {"d": 9}]],
         ]
         maxlen = 3 if tier == "thorough" else 2
+
+        def in_scope(ops):
+            # the held proxy (section a) leaves the scope once a is deleted or overwritten by a dict
+            dead = False
+            for o in ops:
+                if o[0] == "hold":
+                    dead = False
+                elif o[0] == "via" and dead:
+                    return False
+                elif (o[0] == "del" and o[2] == [] and o[3] == "a") or \
+                        (o[0] == "set" and o[2] == [] and o[3] == "a") or o[0] == "clone":
+                    dead = True
+            return True
         for n in range(1, maxlen + 1):
             for ops in itertools.product(alpha, repeat=n):
-                yield dict(base, ops=[copy.deepcopy(o) for o in ops])
+                if in_scope(ops):
+                    yield dict(base, ops=[copy.deepcopy(o) for o in ops])
 
     def run_impl(self, case, rng_seed=1):
         import random
